@@ -177,6 +177,14 @@ def check(repo: Repo, rep: Report) -> None:
                 data[-1] = base_ - 1
                 cases.append((N("Seq", N("MultiDigit", base_, digits), n), data, (1, 1), f"MultiDigit({base_},{digits}) {n} digits {data}"))
         judge("RT-LEAF", f"MultiDigit base={base_} digits={digits}", cases)
+    # ---- OneOf: a later alternative whose tokens begin with characters HexInt never writes (capital letters, g..z, punctuation) ----
+    toks = ["A", "B", "F", "G", "Z", "x", "#", "_"]
+    alt = lambda: N("OneOf", N("HexInt"), N("Dict", [-(k + 2) for k in range(len(toks))], list(toks)))  # noqa: E731
+    cases = []
+    for k in range(len(toks)):
+        cases.append((N("Seq", alt(), 3), [5, -(k + 2), 255], (1, 1), f"Seq(OneOf(HexInt, Dict(..{toks[k]!r}..)), 3) value [5, {-(k + 2)}, 255]"))
+    cases.append((N("Seq", alt(), len(toks)), [-(k + 2) for k in range(len(toks))], (1, 1), "Seq(OneOf(HexInt, Dict(capital and other tokens))) all tokens"))
+    judge("RT-LEAF", "OneOf(HexInt, Dict with tokens outside HexInt's alphabet)", cases)
     # ---- Grid ---------------------------------------------------------------------------------
     for (h, wd) in [(1, 1), (1, 4), (4, 1), (2, 3), (5, 9)]:
         cases = []
